@@ -193,7 +193,7 @@ def tailify(stmts, res):
         if _contains_return([s]):
             return None          # return inside a loop / try / with
         out.append(s)
-    if res is not None:
+    if res is not None and not _terminates(out):
         out.append(ast.Assign(targets=[ast.Name(id=res, ctx=ast.Store())], value=ast.Constant(value=None), lineno=0, col_offset=0))
     return out
 
